@@ -127,9 +127,9 @@ def judge_all(prop, cfg, lines, impl, model, incidents):
             ctx.count("lines_under_fragmenting_reader")
         if op[0] in spec["probes"]:
             evaluations += 1
-            nt = nontrivial or (op[0] in ("dec", "decat", "decq", "deca", "decg") and len(op) > 1 and len(op[-1]) >= 16) or op[0] in ("fx", "sweep", "psweep", "sdec", "senc", "serve", "cli", "cliswitch", "clim", "lsn", "lsnpipe", "sdecmany", "servemany", "tls", "tlsq", "tlsrude", "tlsre", "ctcp")
+            nt = nontrivial or (op[0] in ("dec", "decat", "decq", "deca", "decg") and len(op) > 1 and len(op[-1]) >= 16) or op[0] in ("fx", "sweep", "psweep", "sdec", "senc", "serve", "cli", "cliswitch", "clim", "cliflood", "lsn", "lsnpipe", "sdecmany", "servemany", "tls", "tlsq", "tlsrude", "tlsre", "ctcp")
             if nt:
-                distinct.add(h.digest() if op[0] not in ("dec", "decat", "decq", "deca", "decg", "fx", "sweep", "psweep", "sdec", "senc", "serve", "cli", "cliswitch", "clim", "lsn", "lsnpipe", "sdecmany", "servemany", "tls", "tlsq", "tlsrude", "tlsre", "ctcp") else core.sha(l))
+                distinct.add(h.digest() if op[0] not in ("dec", "decat", "decq", "deca", "decg", "fx", "sweep", "psweep", "sdec", "senc", "serve", "cli", "cliswitch", "clim", "cliflood", "lsn", "lsnpipe", "sdecmany", "servemany", "tls", "tlsq", "tlsrude", "tlsre", "ctcp") else core.sha(l))
             if len(samples) < 6 and (evaluations % 997 == 1):
                 samples.append({"line": l[:300], "implementation": a[:300], "model": (model[i] or "")[:400]})
         for f in fs:
